@@ -9,6 +9,7 @@ import (
 	"sort"
 	"strings"
 	"sync"
+	"sync/atomic"
 	"time"
 )
 
@@ -146,8 +147,37 @@ func writeStats(path string) {
 // endless loop). The process is ended with a line the driver recognises; the trace of the case is
 // printed by the caller-supplied describe function.
 func Watchdog(prop, what string, d time.Duration, describe func() string) (stop func()) {
-	tm := time.AfterFunc(d, func() { watchdogFire(prop, what, d, describe) })
-	return func() { tm.Stop() }
+	var stopped int32
+	ch := after(d)
+	go func() {
+		<-ch
+		if atomic.LoadInt32(&stopped) == 0 {
+			watchdogFire(prop, what, d, describe)
+		}
+	}()
+	return func() { atomic.StoreInt32(&stopped, 1) }
+}
+
+// after is time.After for limits that decide "this call hangs". One timer of length d would fire
+// right after the process - or the whole machine - had been stopped for longer than d (a VM
+// snapshot, SIGSTOP, a starved scheduler), although the guarded call got no time at all: that is
+// how alarm 17 of DESIGN.md §14 came about. Here the timer is followed by a confirmation period
+// of the same length made of five short timers, so a stop of any length uses up at most one of
+// them and the guarded call always gets at least 0.8*d of time in which the process really ran.
+func after(d time.Duration) <-chan time.Time {
+	ch := make(chan time.Time, 1)
+	n := 5
+	var f func()
+	f = func() {
+		if n == 0 {
+			ch <- time.Now()
+			return
+		}
+		n--
+		time.AfterFunc(d/5, f)
+	}
+	time.AfterFunc(d, f)
+	return ch
 }
 
 func watchdogFire(prop, what string, d time.Duration, describe func() string) {
